@@ -352,6 +352,10 @@ func c06FamMisc(r *Run, full bool) []c06m {
 		{c06m{"v": c06a{}}, c06m{"increment": c06m{"key": "name"}}}, {c06m{"v": c06a{}}, c06m{"increment": c06m{}}},
 		{c06m{"v": c06a{}}, c06m{"set": c06m{"key": "_gid", "value": nil}}}, {c06m{"v": c06a{}}, c06m{"increment": c06m{"key": "_label", "value": 1}}},
 		{c06m{"v": c06a{}}, c06m{"fields": c06a{"-", "$zz.x", "a.b.c", "-nest.k", "_gid", "-_label"}}},
+		// exclusion lists that name a property and, before or after it, something below it
+		{c06m{"v": c06a{}}, c06m{"fields": c06a{"-nest", "-nest.k"}}}, {c06m{"v": c06a{}}, c06m{"fields": c06a{"-nest.k", "-nest"}}},
+		{c06m{"v": c06a{}}, c06m{"fields": c06a{"-_data", "-nest.k"}}}, {c06m{"v": c06a{}}, c06m{"fields": c06a{"-tags", "-tags.0", "-name.x"}}},
+		{c06m{"e": c06a{}}, c06m{"fields": c06a{"-w", "-w.x", "-tags", "-tags.k"}}}, {c06m{"v": c06a{}}, c06m{"fields": c06a{"-nest", "-nest.k", "-nest.k.z", "name"}}},
 		{c06m{"v": c06a{}}, c06m{"mark": ""}}, {c06m{"v": c06a{}}, c06m{"jump": c06m{}}},
 		{c06m{"v": c06a{}}, c06m{"path": c06a{1, nil}}}, {c06m{"e": c06a{}}, c06m{"path": c06a{}}, c06m{"limit": 1}},
 		{c06m{"v": c06a{}}, c06m{"as": "a"}, c06m{"outE": c06a{}}, c06m{"as": "a"}, c06m{"select": c06m{"marks": c06a{"a"}}}, c06m{"out": c06a{}}},
